@@ -9,6 +9,7 @@ import Rbql.Model.PyString
 import Rbql.Model.Sources
 import Rbql.Model.Parse
 import Rbql.Model.ParseJs
+import Rbql.Model.Translate
 import Driver.Codec
 import Driver.EngineOps
 open Rbql Driver
@@ -94,7 +95,59 @@ def encActions (r : Except ParseError Actions) : String :=
     let w := match a.withModifier with | some x => encStr x | none => "~"
     s!"ok {w} " ++ " ".intercalate (sorted.map encAction)
 
+def encColInfo : ColInfo → String
+  | .star none => "S*" | .star (some false) => "Sa" | .star (some true) => "Sb"
+  | .field b i => (if b then "Fb" else "Fa") ++ toString i
+  | .named n => "N" ++ encStr n
+  | .alias n => "A" ++ encStr n
+  | .other => "O"
+
+def encNats (l : List Nat) : String := if l.isEmpty then "!" else ",".intercalate (l.map toString)
+
+/-- ops of the query-translation layer (Model/Translate.lean) -/
+def stepTranslate (ws : List String) : Option String :=
+  match ws with
+  | ["starcount", js, s] => some (encStr (if decBool js then replaceStarCountJs (decStr s) else replaceStarCountPy (decStr s)))
+  | ["starvars", js, s] => some (encStr (replaceStarVars (decBool js) (decStr s)))
+  | ["starmarker", js, s] => some (encStr (replaceStarVarsMarker (decBool js) (decStr s)))
+  | ["subas", py, mode, s] =>
+    some (encStr (subAsAlias (decBool py) (if mode == "call" then aliasPseudoCall else fun _ => []) 0 (decStr s)))
+  | ["trsel", js, s] =>
+    some (match (if decBool js then translateSelectJs (decStr s) else translateSelectPy (decStr s)) with
+      | .ok (a, b) => s!"ok {encStr a} {encStr b}"
+      | .error _ => "err empty")
+  | ["updpairs", js, s] =>
+    some (match updatePairs (if decBool js then jsStrStrip else pyStripU) (decStr s) with
+      | .ok ps => "ok " ++ encTable (ps.map (fun p => [p.1, p.2]))
+      | .error _ => "err notassign")
+  | ["basicvars", py, pfx, s] => some (encNats (basicVarNums (decBool py) ((decStr pfx).headD 'a') 0 0 (decStr s)))
+  | ["arrayvars", pfx, s] => some (encNats (arrayVarNums ((decStr pfx).headD 'a') 0 0 (decStr s)))
+  | ["spans", s] =>
+    some (match rootSpans (decStr s) with
+      | .ok l => "ok " ++ encList l
+      | .error (.noOpening c) => "err open " ++ encStr [c]
+      | .error (.noClosing c) => "err close " ++ encStr [c])
+  | ["colinfos", s, lits] =>
+    some (match adhocColumnInfos (decStr s) (decList lits) with
+      | .ok l => "ok " ++ " ".intercalate (l.map encColInfo)
+      | .error (.noOpening c) => "err open " ++ encStr [c]
+      | .error (.noClosing c) => "err close " ++ encStr [c])
+  | ["selinfos", _js, s, lits] =>
+    -- the rbql-js route from a select-list text to its column infos: translate, then the span parser
+    some (match translateSelectJs (decStr s) with
+      | .error _ => "err empty"
+      | .ok (_, hdr) =>
+        match adhocColumnInfos hdr (decList lits) with
+        | .ok l => "ok " ++ " ".intercalate (l.map encColInfo)
+        | .error (.noOpening c) => "err open " ++ encStr [c]
+        | .error (.noClosing c) => "err close " ++ encStr [c])
+  | ["unquotestr", s] => some (match unquoteString (decStr s) with | some v => "S" ++ encStr v | none => "N")
+  | _ => none
+
 def step (line : String) : String :=
+  match stepTranslate (line.splitOn " ") with
+  | some r => r
+  | none =>
   match line.splitOn " " with
   | ["split", pol, pres, d, s] =>
     let r := smartSplit (decStr d) (decPolicy pol) (decBool pres) (decStr s)
